@@ -29,6 +29,7 @@ def h_product(c, rtype, version):
     if rtype == 0x16:
         c.assume((frag[0] != 1) & (frag[0] != 2))
     runs = {}
+    seq0 = {"server_seq": c.int("server_seq", 0, 2 ** 62), "client_seq": c.int("client_seq", 0, 2 ** 62)}
     for meta in (False, True):
         calls = []
 
@@ -39,7 +40,8 @@ def h_product(c, rtype, version):
                     c.raise_in_code("InvalidTag")
                 return plaintext
             return None
-        dec = c.recorder("decryptor", handler=behave) if has_dec else None
+        # the decryptor's record counters are part of the compared state: they enter nonce / MAC of every later record
+        dec = c.recorder("decryptor", handler=behave, **seq0) if has_dec else None
         attrs = dict(exp_meta=meta, decryptor=dec, application_traffic=[], tls_version=c.enum(TV, version), server_ip=c.bytes("sip", length=4),
                      client_ip=c.bytes("cip", length=4), server_port=443, client_port=50000, ipv6=False)
         attrs.update(flags0)
@@ -55,6 +57,9 @@ def h_product(c, rtype, version):
     for f in FLAGS:
         c.ensure("flags_equal." + f, c.prove(eq(c.get(s0, f), c.get(s1, f))))
     c.ensure("decryptor_driven_identically", len(calls0) == len(calls1) and all(a[0] == b[0] for a, b in zip(calls0, calls1)))
+    if has_dec:
+        d0, d1 = c.get(s0, "decryptor"), c.get(s1, "decryptor")
+        c.ensure("decryptor_record_counters_equal", all(c.prove(eq(c.get(d0, a), c.get(d1, a))) for a in ("server_seq", "client_seq")))
     if rtype == 0x17:
         c.ensure("application_data.same_entries", len(t0) == len(t1) and all(c.prove(eq(x[0], y[0])) and x[1] is y[1] and c.same_object(x[2], y[2]) for x, y in zip(t0, t1)))
     else:
